@@ -654,6 +654,14 @@ func (fg *FG) convert(st *State, x *ssa.Convert) {
 		fg.setHeap(st, fam, fmt.Sprintf("(store %s %s %s)", h, r, arr))
 		c := fg.fresh("cap", "Int")
 		fg.assume(fmt.Sprintf("(>= %s (strlen %s))", c, a.T))
+		// the new slice holds exactly the bytes of the string (as a byte-string value, too)
+		fg.declareFun("bytes.ofstr", []string{"Str"}, "Bytes")
+		if !fg.declSet["ax.bytes.ofstr"] {
+			fg.declSet["ax.bytes.ofstr"] = true
+			fg.decls = append(fg.decls, "(assert (forall ((s Str)) (! (= (blen (bytes.ofstr s)) (strlen s)) :pattern ((bytes.ofstr s)))))")
+			fg.decls = append(fg.decls, "(assert (forall ((s Str) (i Int)) (! (=> (and (<= 0 i) (< i (strlen s))) (= (bat (bytes.ofstr s) i) (strat s i))) :pattern ((bat (bytes.ofstr s) i)))))")
+		}
+		fg.assume(fmt.Sprintf("(= (bytes.of %s 0 (strlen %s)) (bytes.ofstr %s))", arr, a.T, a.T))
 		fg.bind(x, fmt.Sprintf("(mk-slice %s 0 (strlen %s) %s)", r, a.T, c))
 	case isByteSlice(from) && tIsB && tb.Info()&types.IsString != 0:
 		fg.bind(x, fg.bytesToStr(st, a.T))
